@@ -1,0 +1,29 @@
+//go:build verif
+
+// Contracts for the deductive verifier under /verif (comment-only file).
+package prim
+
+//@ func Compact assumed "encoding/json.Compact into a pooled bytes.Buffer, appended to *p"
+//@   modifies anything
+
+// EncodeJsonMarshaler (C18/C03/C04: what the options do to the output of a user
+// Marshaler): the Marshaler's error is returned as is; with CompactMarshaler the output
+// goes through json.Compact; otherwise it is validated unless NoValidateJSONMarshaler is
+// set - an invalid output is an error, never emitted - and then appended verbatim.
+//@ func EncodeJsonMarshaler props C18,C04,C03
+//@   requires buf != nil && val != nil
+//@   modifies anything
+//@   after MarshalJSON: assume base(*buf) != base(r0) || base(r0) == 0
+//@   witness out ByteSlice = ret
+//@   witness merr error = err
+//@   ensures merr != nil ==> result == merr
+//@   ensures (merr == nil && opt & (1 << alg.BitCompactMarshaler) == 0 && opt & (1 << alg.BitNoValidateJSONMarshaler) == 0 && result == nil) ==> alg.validOK(out)
+//@   ensures (merr == nil && opt & (1 << alg.BitCompactMarshaler) == 0 && (opt & (1 << alg.BitNoValidateJSONMarshaler) != 0 || alg.validOK(out))) ==> result == nil
+
+// EncodeTextMarshaler: quoted unless NoQuoteTextMarshaler.
+//@ func EncodeTextMarshaler props C18,C03
+//@   requires buf != nil && val != nil
+//@   modifies anything
+//@   witness merr error = err
+//@   ensures merr != nil ==> result == merr
+//@   ensures merr == nil ==> result == nil
